@@ -286,7 +286,7 @@ def run(ctx):
             else:
                 ctx.holds("C19.1", e.fn, "%s: every metafile-derived component of the written path went through %s" % (
                     e.prim, ", ".join(sorted(q.split(":")[1] for q in sanitisers))), norm(e.site) + " :: " + norm(a), path=where)
-    ctx.floor("written-path arguments reachable from rebuild", 3, n_sinks)
+    ctx.floor("written-path arguments reachable from rebuild", 2, n_sinks)
     ctx.floor("written paths that depend on the metafile", 1, tainted_sinks)
     # the sanitiser's root must be the destination, its checked argument the metafile path
     for q, f in sanitisers.items():
